@@ -33,7 +33,7 @@ func c06Cases(tier string, seed uint64, flavor string) []lib.Case {
 	nb := 1
 	ncombo := 12
 	if tier == "thorough" {
-		nperturb, nb, ncombo = 16, 4, 120
+		nperturb, nb, ncombo = 16, 10, 150
 	}
 	if flavor == "race" {
 		nperturb, ncombo = 1, 4
